@@ -364,7 +364,9 @@ def run(chk):
     ncases = 3000 if thorough else 280
     hashseeds = [0, 1, 2, 3, 5, 7, 11, 4242] if thorough else [0, 1, 7]
     chk.rule = ("%d seeded matrices (profiles plain / rich / duplicate frame names / unpropagated receivers / both / many mux groups / all, "
-                "plus long names, free signals, cycle times, equal signal names in two frames) + %d hand-made corpus matrices; per matrix: 13 "
+                "plus long names, free signals, cycle times, equal signal names in two frames; in 3 of 4 matrices every ordered container - frames, ecus, "
+                "signals of a frame incl. the position of the multiplexer, transmitters, receivers, attribute/define/value-table insertion order, signal "
+                "groups - is randomly permuted) + %d hand-made corpus matrices; per matrix: 13 "
                 "writers alone, all ordered pairs of the writers that accept it, %d PYTHONHASHSEED values in separate processes. One evaluation "
                 "= one (matrix, first writer, second writer) triple or one (matrix, writer, hash seed) export; non-trivial = the matrix has "
                 "duplicate frame or signal names, unpropagated receivers, or a multiplexed frame" % (ncases, K.N_CORPUS, len(hashseeds)))
